@@ -86,9 +86,13 @@ def generator_leg(tier, seed):
 
 
 def both_legs(tier, seed):
+    from .. import repotrace
+
+    fut = repotrace.start(tier, rar=False)      # the repository's own solver tests, traced through hook H2 (background)
     v1, s1 = _contracts.leg(("solve",), 0)(tier, seed)
     v2, s2 = generator_leg(tier, seed)
-    return v1 + v2, dict(s1, **s2)
+    v3, s3 = repotrace.datagen_leg(fut)
+    return v1 + v2 + v3, dict(s1, **s2, **s3)
 
 
 def run(tier, seed):
@@ -98,6 +102,8 @@ def run(tier, seed):
              "TLC's emission + driver families: epoch wrap (12 iterations), batch sizes dividing / not dividing / equal to n, parameter and "
              "observation generators (their batches decoded from the loss terms), tracked-parameter specs, sgd/adam/chained-schedule "
              "optimizers (loop structure: entries written, batches, step counters, returned generator), resumed runs; the loss history "
-             "decodes to (parameter version, batch ids) and is compared with the reference draw sequence obtained outside solve",
+             "decodes to (parameter version, batch ids) and is compared with the reference draw sequence obtained outside solve; "
+             "+ the repository's own solver tests (pinned selection; thorough: the other x32 solver tests too) run under hook H2: every "
+             "solve call they make is validated against the Batching clauses (generator advanced once per iteration + probe draw)",
         assumptions=["tagged arithmetic (x64); for sgd/adam/chain only the structural part is compared (no version decoding)",
                      "the probe batch consumed before the loop is part of the specification (ProbeDraw)"])
